@@ -295,6 +295,23 @@ add("C18", True, "exploration",
     "destination table in vf/props/c18.py.",
     "DESIGN.md section 5, C18")
 
+add("C17", True, "exploration",
+    "Hypothesis-generated calls with deep argument fingerprints + "
+    "metamorphic history test: probe after a generated history vs the same "
+    "probe as first call of a fresh interpreter",
+    "(A) The generated problems of C01 run stage by stage and a deep "
+    "structural fingerprint of every argument (graph, machine, constraints, "
+    "placements, allocations, trees, tables, alias dict) is compared before "
+    "and after each call. (B) 1-8 library calls with generated arguments "
+    "(placers, pipeline, router with memoised rings, minimisers, bit field "
+    "histories, controller context changes) are followed by a probe call "
+    "whose canonical result must equal the result of the same probe executed "
+    "first in a freshly spawned interpreter.",
+    "Trusted: the fingerprint function, PYTHONHASHSEED=0 on both sides. "
+    "Fresh-interpreter probes cost ~1 s, so the quick tier runs ~100 "
+    "histories.",
+    "DESIGN.md section 5, C17")
+
 
 def main():
     checks = []
